@@ -280,7 +280,7 @@ structure FixupReq where
 /-- what the encoder did between `CodeWriter writer(this)` and `EmitDone` / `Failed` -/
 inductive EncOutcome
   | reject (err : Nat)
-  | accept (bytes : Bytes) (fixup : Option FixupReq) (relocs : Nat)
+  | accept (bytes : Bytes) (fixup : Option FixupReq) (relocs : Nat) (newSecs : Nat)   -- newSecs: `.addrtab` created by a 64-bit jmp/call imm
   deriving DecidableEq, Repr
 
 /-- `Failed:` -> `EmitterUtils::log_instruction_failed`: format, `reset_state()`, `report_error(err)` -/
@@ -293,11 +293,11 @@ def emit (s : St) (pre : OneShot) (labelRefs : List Nat) (o : EncOutcome) : Res 
   let s := { s with one := pre }                 -- the one-shot setters that precede the call (`a.rep().movs(...)`)
   match o with
   | .reject e => emitFailed s (if e = Err.ok then Err.invalidInstruction else e)
-  | .accept bytes fx nrel =>
+  | .accept bytes fx nrel nsec =>
     if labelRefs.any (fun id => id ≥ s.labels.length) then emitFailed s Err.invalidLabel
     else
       let base := s.offset
-      let s1 := { s with relocs := s.relocs + nrel }
+      let s1 := { s with relocs := s.relocs + nrel, secs := s.secs ++ List.replicate nsec ({} : Section) }
       let s2 := match fx with
         | none => s1
         | some r => { s1 with pending := { label := r.label, sec := s.cur, off := base + r.off, rel := r.rel, fmt := r.fmt,
